@@ -28,6 +28,30 @@ def oracle(scen, obs):
     return None
 
 
+def oracle_timeouts(scen, obs):
+    """a stream of timeouts ends the round after MAX_TIMEOUTS of them: once the scans of a round have seen that many
+    timed-out candidates done, no further candidate of the round is started"""
+    maxt = scen.get('consts', {}).get('MAX_TIMEOUTS', 20)
+    faults = scen.get('faults', {})
+    tset = {tuple(map(int, k.split('.'))) for k, v in faults.items() if v == 'timeout'}
+    started = {}
+    for rid, n in obs.get('scheduled', []):
+        started[rid] = max(started.get(rid, 0), n)
+    seen = {}
+    for key, done in sorted(obs.get('played', {}).items(), key=lambda kv: tuple(map(int, kv[0].split('.')))):
+        rid, t = map(int, key.split('.'))
+        s = seen.setdefault(rid, set())
+        for i in done:
+            if (rid, i + 1) in tset:
+                s.add(i)
+        # a scan only reaches the timeouts that precede the first accepted/quitting candidate; count conservatively:
+        # only rounds without any non-timeout completion before are judged
+        others = [i for i in done if (rid, i + 1) not in tset]
+        if not others and len(s) >= maxt and started.get(rid, 0) > t:
+            return 'round-continues-after-max-timeouts'
+    return None
+
+
 def nontriv(scen, obs):
     if scen.get('faults') and obs['played']:
         return D.scen_key(scen)
@@ -40,13 +64,27 @@ def scens(ctx, n):
     return [D.gen_scenario(ctx.rng, bias) for _ in range(n)]
 
 
+def timeout_scens(ctx, n):
+    """streams of timeouts: several adjacent candidates time out and are seen by the same scan"""
+    out = []
+    for _ in range(n):
+        s = D.gen_scenario(ctx.rng, {'p_contract': 0.0, 'p_faults': 0.0, 'files': [1], 'max_states': 6, 'max_passes': 1, 'p_small_consts': 0.0})
+        s['consts'] = {'MAX_TIMEOUTS': ctx.rng.choice([2, 3, 4]), 'MAX_EXTRA_DIRS': 25000}
+        s['faults'] = {f'0.{i}': 'timeout' for i in range(1, 8)}
+        s['N'] = ctx.rng.choice([2, 3, 4, 6])
+        s['p_done'] = ctx.rng.choice([0.0, 1.0, 1.0, 0.5])
+        s['cfg'] = {'cacheOn': False}
+        out.append(s)
+    return out
+
+
 def run(ctx):
     if ctx.replay:
-        D.replay_drv(ctx, json.load(open(ctx.replay)), [oracle])
+        D.replay_drv(ctx, json.load(open(ctx.replay)), [oracle, oracle_timeouts])
         return 1 if ctx.violations else 0
     ctx.lean_gate(OBLIGATIONS)
     diffs = []
-    rows = D.sweep(ctx, scens(ctx, 500 if ctx.tier == 'quick' else 8000), [oracle], diffs, nontriv)
+    rows = D.sweep(ctx, scens(ctx, 500 if ctx.tier == 'quick' else 8000) + timeout_scens(ctx, 60 if ctx.tier == 'quick' else 600), [oracle, oracle_timeouts], diffs, nontriv)
     ctx.sample({'scenario_key': D.scen_key(rows[4][0]), 'faults': rows[4][0]['faults'], 'consts': rows[4][0]['consts'], 'observed': rows[4][2]})
 
     # real pool, real scripts: exit!=0, SIGKILL, hang past the timeout, forking, megabytes of output, bytes that are not UTF-8
